@@ -2,6 +2,7 @@ package props
 
 import (
 	"fmt"
+	"strings"
 	"time"
 
 	saml2 "github.com/russellhaering/gosaml2"
@@ -24,7 +25,7 @@ func init() {
 			"delivery inside all windows; oracle: accepted and Response/AssertionInfo equal the logical message; distinct = shape hash (layout x signature style x placement x n x encryption x presentation x pre-faults)",
 		Directed:   c08Directed,
 		Run:        c08Run,
-		MustHit:    []string{"place=R", "place=A", "place=RA", "encrypted", "compressed", "layout_comments", "layout_cdata", "layout_charrefs", "n>=2", "inclusive_c14n", "sp_restart", "idp_key_rollover", "later_assertion_leaner_than_the_first"},
+		MustHit:    []string{"place=R", "place=A", "place=RA", "encrypted", "compressed", "layout_comments", "layout_cdata", "layout_charrefs", "n>=2", "inclusive_c14n", "sp_restart", "idp_key_rollover", "later_assertion_leaner_than_the_first", "stored_block_with_text_header"},
 		RandomRuns: map[string]int{"quick": 6000, "thorough": 80000},
 		Assumptions: []string{
 			"only layouts for which the stub's own goxmldsig self-check passes are sent (canonicalisation the validator supports); a failing self-check on a calibrated layout is a harness error",
@@ -217,8 +218,35 @@ func c08Run(r *core.Run) {
 	}
 	// transport: delay inside every window
 	r.Sim.Advance(time.Duration(t.Int(50, "c08.delay")) * time.Second)
-	level := []int{6, 1, 9, 0}[t.Int(4, "c08.level")]
-	enc := world.Present(xml, compress, level)
+	level := []int{6, 1, 9, 0, 100}[t.Int(5, "c08.level")]
+	enc := ""
+	if level != 100 {
+		enc = world.Present(xml, compress, level)
+	} else if !compress {
+		enc = world.Present(xml, false, 0)
+	}
+	if compress && level == 100 && len(xml) > 0x7e3d {
+		enc = world.Present(xml, true, 0)
+	} else if compress && level == 100 {
+		// a compressor that only frames: one stored block whose header octets happen to be characters (for
+		// that the message is padded with white space behind the root to a length whose two octets are text).
+		// Read as a raw document the stream is "text, then the message": the SP has to inflate it all the same.
+		total := 0x4020
+		for total < 0x7e40 && (total < len(xml) || !world.TextCleanBlockLen(total)) {
+			total++
+		}
+		if total >= 0x7e40 {
+			total = 0 // longer than any block length whose octets are text: ordinary framing
+		}
+		padded := xml + strings.Repeat("\n", total-len(xml))
+		comp := world.StoredDeflate([]byte(padded), []int{total}, func(int) byte { return '!' }, false)
+		if inf, err := world.Inflate(comp); err != nil || string(inf) != padded || comp[0] != '!' {
+			r.HarnessError("hand-made DEFLATE stream does not inflate to the message: %v", err)
+			return
+		}
+		enc = world.B64(comp)
+		r.Probe("stored_block_with_text_header")
+	}
 
 	switch t.Int(6, "c08.ambient") {
 	case 1:
